@@ -42,6 +42,9 @@ type c14Case struct {
 	// Prelude: a complete earlier response was delivered and consumed on the
 	// channel before the response that is cut off by the fault
 	Prelude bool `json:"second_response_on_channel,omitempty"`
+	// SecondChannel: the connection carries a logical channel besides
+	// channel 0; its consumer has to learn about the failure as well
+	SecondChannel bool `json:"second_channel,omitempty"`
 }
 
 func c14Err(style string) error {
@@ -94,6 +97,24 @@ func c14Run(c *Ctx, cs c14Case, ref []string) {
 		return
 	}
 	defer k.teardown()
+	var ch1 *tds.Channel
+	if cs.SecondChannel {
+		k.tr.OnWrite = func(rec xport.WriteRec) {
+			if len(rec.Data) == 8 && rec.Data[0] == byte(tds.TDS_BUF_SETUP) {
+				k.tr.Feed(xport.Header{Type: byte(tds.TDS_BUF_PROTACK), Status: xport.EOM, Length: 8, Channel: uint16(rec.Data[4])<<8 | uint16(rec.Data[5])}.Bytes())
+			}
+		}
+		call := c13Go(func() { ch1, err = k.conn.NewChannel() })
+		if !call.wait(30*time.Second) || call.pi != nil || err != nil || ch1 == nil {
+			r.Inconclusive("cannot set up the second channel: %v", err)
+			return
+		}
+		k.tr.OnWrite = nil
+		if !awaitIdle(k.tr, 30*time.Second) {
+			r.Inconclusive("channel setup not processed")
+			return
+		}
+	}
 	if cs.Prelude {
 		first := append(srv.ReturnStatus(77), srv.Done(srv.TokDone, srv.DoneCount, 0, 1)...)
 		k.tr.Feed(xport.Packet(byte(tds.TDS_BUF_RESPONSE), xport.EOM, 0, first))
@@ -168,7 +189,7 @@ func c14Run(c *Ctx, cs c14Case, ref []string) {
 	}
 	r.SetAdd("reader_states_at_fault", stClass+"/"+cs.Style)
 	if cs.Offset > 0 && cs.Offset < len(stream) {
-		r.Distinct(fmt.Sprintf("%s|%v|%d|%s|%d|%v", cs.Resp, cs.Cuts, cs.Offset, cs.Style, cs.ReadTimeout, cs.Prelude))
+		r.Distinct(fmt.Sprintf("%s|%v|%d|%s|%d|%v|%v", cs.Resp, cs.Cuts, cs.Offset, cs.Style, cs.ReadTimeout, cs.Prelude, cs.SecondChannel))
 	}
 	// minimum and maximum number of deliverable packages
 	minPk, maxPk := 0, 0
@@ -196,9 +217,10 @@ func c14Run(c *Ctx, cs c14Case, ref []string) {
 	}
 
 	var got delivered
+	var gid int64
 	if cs.ReadTimeout == 0 {
 		// structural: wait until the reader cannot progress, then drain
-		gid := waitReaderGID(k.tr)
+		gid = waitReaderGID(k.tr)
 		st, ok := readerQuiescent(gid, 20*time.Second)
 		if !ok {
 			r.Inconclusive("reader goroutine still %q 20 s after the fault (case %s offset %d style %s)", st, cs.Resp, cs.Offset, cs.Style)
@@ -236,6 +258,29 @@ func c14Run(c *Ctx, cs c14Case, ref []string) {
 			got.Types = append(got.Types, fmt.Sprintf("%T", pkg))
 		}
 		cancel()
+		// This consumer runs concurrently with the reader: when packages
+		// and the error become ready between NextPackage's first look at
+		// the package queue and its select, the select may hand out the
+		// error first. This leg judges the time to the error; what was
+		// ready with it is taken now and counted (the order of packages and
+		// error is judged in the structural leg, where it is a function of
+		// the input).
+		if st, ok := readerQuiescent(waitReaderGID(k.tr), 20*time.Second); !ok {
+			r.Inconclusive("reader goroutine still %q 20 s after the error was delivered", st)
+			return
+		}
+		for {
+			pkg, err := k.ch.NextPackage(k.ctx, false)
+			if err != nil {
+				if !errors.Is(err, tds.ErrNoPackageReady) {
+					continue // further copies of the error
+				}
+				break
+			}
+			r.Count("timed_leg_packages_ready_together_with_the_error", 1)
+			got.Dumps = append(got.Dumps, canon.Dump(pkg))
+			got.Types = append(got.Types, fmt.Sprintf("%T", pkg))
+		}
 	}
 	r.Count("packages_observed", int64(len(got.Dumps)))
 	r.Count("errors_observed", int64(len(got.Errs)))
@@ -255,6 +300,48 @@ func c14Run(c *Ctx, cs c14Case, ref []string) {
 		}
 		fail(what, fmt.Sprintf("%d packages delivered but only %d can be complete", len(got.Dumps), maxPk), got)
 		return
+	}
+	// The failure is not consumed by the first consumer that sees it: the
+	// consumer of another channel, or the same consumer asking again, must
+	// be answered as well instead of waiting for ever.
+	who, ch := "a second NextPackage call on the channel", k.ch
+	if ch1 != nil {
+		who, ch = "the consumer of the second channel", ch1
+	}
+	if cs.ReadTimeout == 0 {
+		st, ok := readerQuiescent(gid, 20*time.Second)
+		if !ok {
+			r.Inconclusive("reader goroutine still %q 20 s after the first consumer was served", st)
+			return
+		}
+		again := drainChannel(ch, k.ctx)
+		if len(again.Dumps) > 0 {
+			fail("package-after-the-error", fmt.Sprintf("%s received packages %v after the failure had been reported", who, again.Types), got)
+			return
+		}
+		if len(again.Errs) == 0 {
+			fail("no-error-for-later-consumer", fmt.Sprintf("after the first consumer took the queued error(s) the reader goroutine is %s and nothing is queued: %s waits until its own context ends", st, who), got)
+			return
+		}
+		r.Count("later_consumers_answered", 1)
+	} else {
+		ctx, cancel := context.WithTimeout(context.Background(), time.Duration(cs.ReadTimeout)*time.Second+10*time.Second)
+		pkg, err := ch.NextPackage(ctx, true)
+		expired := ctx.Err() != nil
+		cancel()
+		switch {
+		case err == nil:
+			fail("package-after-the-error", fmt.Sprintf("%s received %T after the failure had been reported", who, pkg), got)
+		case expired:
+			st, ok := readerQuiescent(waitReaderGID(k.tr), 5*time.Second)
+			if ok {
+				fail("no-error-for-later-consumer", fmt.Sprintf("%s got no error within read timeout + 10 s; the reader goroutine is %s", who, st), got)
+			} else {
+				r.Inconclusive("later consumer got no error within read timeout + 10 s but the reader is still %q", st)
+			}
+		default:
+			r.Count("later_consumers_answered", 1)
+		}
 	}
 }
 
@@ -378,6 +465,7 @@ func runC14(c *Ctx) {
 					cs.Offset, cs.Style = off, st
 					cs.Chunk = []string{"one", "per-packet"}[off%2]
 					cs.Prelude = off%4 == 3
+					cs.SecondChannel = off%4 == 1
 					jobs = append(jobs, job{cs, refOut.d.Dumps})
 				}
 			}
@@ -392,6 +480,7 @@ func runC14(c *Ctx) {
 				cs.Style = []string{"eof", "eof-with-data", "reset", "timeout"}[i%4]
 				cs.ReadTimeout = 1
 				cs.Chunk = "one"
+				cs.SecondChannel = i%2 == 1
 				jobs = append(jobs, job{cs, refOut.d.Dumps})
 			}
 			r.SetAdd("responses", resp.Name+"/"+cu.name)
